@@ -196,3 +196,27 @@ macro_rules! scalar_entries {
     };
 }
 include!("scalars.rs");
+
+// ------------------------------------------------------------------------------------------------
+// C14 keyed collections (values: the opaque Opq conversion)
+use std::collections::{BTreeMap, HashMap};
+pub fn entry_hm_string(items: &[NestedMeta]) -> Result<HashMap<String, Opq>> {
+    FromMeta::from_list(items)
+}
+pub fn entry_bm_string(items: &[NestedMeta]) -> Result<BTreeMap<String, Opq>> {
+    FromMeta::from_list(items)
+}
+pub fn entry_hm_ident(items: &[NestedMeta]) -> Result<HashMap<syn::Ident, Opq>> {
+    FromMeta::from_list(items)
+}
+pub fn entry_bm_ident(items: &[NestedMeta]) -> Result<BTreeMap<syn::Ident, Opq>> {
+    FromMeta::from_list(items)
+}
+pub fn entry_hm_path(items: &[NestedMeta]) -> Result<HashMap<syn::Path, Opq>> {
+    FromMeta::from_list(items)
+}
+pub fn render_map<K: ToString, V: Render>(m: impl IntoIterator<Item = (K, V)>) -> String {
+    let mut v: Vec<(String, String)> = m.into_iter().map(|(k, v)| (k.to_string(), v.render())).collect();
+    v.sort();
+    format!("{{{}}}", v.iter().map(|(k, v)| format!("{}:{}", jstr(k), v)).collect::<Vec<_>>().join(","))
+}
